@@ -546,15 +546,38 @@ def _vector_envs(run, discrete, same_step):
     return venv
 
 
-def _rec_vector(venv, trace):
+def _rec_vector(venv, trace, inplace_obs=False):
     """Recording vector wrapper: logs what the vector API returned (the
     reference for A2C / PPO)."""
     import gymnasium as gym
 
+    def aligned_like(a):
+        """64-byte aligned array of a's shape / dtype (JAX's CPU backend shares
+        memory with aligned NumPy arrays instead of copying them)."""
+        raw = np.empty(a.nbytes + 128, dtype=np.uint8)
+        off = (-raw.ctypes.data) % 64 + (a.itemsize if inplace_obs == "misaligned"
+                                         else 0)
+        return raw[off:off + a.nbytes].view(a.dtype).reshape(a.shape)
+
     class RecVector(gym.vector.VectorWrapper):
+        # inplace_obs: behave like SyncVectorEnv(copy=False) - one observation
+        # buffer that every reset / step overwrites in place
+        _buf = None
+
+        def _handout(self, obs):
+            if not inplace_obs:
+                return obs
+            obs = np.asarray(obs)
+            if self._buf is None:
+                self._buf = aligned_like(obs)
+            np.copyto(self._buf, obs)
+            return self._buf
+
         def reset(self, **kw):
             out = self.env.reset(**kw)
             trace.ev("vreset", obs=np.array(out[0], copy=True))
+            if inplace_obs:
+                out = (self._handout(out[0]),) + tuple(out[1:])
             return out
 
         def step(self, actions):
@@ -571,6 +594,8 @@ def _rec_vector(venv, trace):
                 if "final_obs" in info else None,
                 final_mask=np.array(info["_final_obs"], copy=True)
                 if "_final_obs" in info else None)
+            if inplace_obs:
+                out = (self._handout(out[0]),) + tuple(out[1:])
             return out
 
     return RecVector(venv)
@@ -585,7 +610,7 @@ def build_a2c(run):
     discrete = c.get("discrete", False)
     venv = _vector_envs(run, discrete, c.get("same_step", False))
     venv = gym.wrappers.vector.RecordEpisodeStatistics(venv)
-    rv = _rec_vector(venv, run.trace)
+    rv = _rec_vector(venv, run.trace, c.get("inplace_obs", False))
     st = _pg_state(run, venv, discrete)
     run.env = rv
     run.kwargs = dict(
